@@ -239,6 +239,30 @@ def _eval_inner(case):
                     msgs.append("chi2 with Omega=%s changes from %.17g to %.17g when the vertices are marked fixed=%r" % (name, c2, c2f, flags))
             for v in e.vertices:
                 v.fixed = False
+        # history on the SAME edge object: the measurement (and the offset) are replaced, chi2 must follow
+        if not msgs:
+            kind_m = kind if case["edge"] == "odo" else I.POINT_OF[kind]
+            alt = dict(case)
+            zs = [float(x) for x in I.comps(e.estimate)]
+            alt["z"] = [x + 0.25 for x in zs[: G.DIM[kind_m]]] + zs[G.DIM[kind_m] :]
+            e.estimate = I.mk_pose(kind_m, alt["z"])
+            if case["edge"] == "lm":
+                alt["off"] = case["p1"]
+                e.offset = I.mk_pose(kind, alt["off"])
+            name, om = _omegas(n, case["tier"], case["seed"])[-1] if False else _omegas(n, "quick", case["seed"])[2]
+            e.information = np.array(om, dtype=float)
+            ref2 = _ref_error(alt)
+            got2 = e.calc_error()
+            r2, cands2 = _cmp_error(kind, case["edge"], got2, ref2, sc + 0.25, msgs)
+            ratio = max(ratio, r2)
+            c2 = float(e.calc_chi2())
+            nops += 2
+            refs = [R.chi2(c, om) for c in cands2]
+            onorm = max(abs(x) for row in om for x in row) * n * n
+            en2 = sum(x * x for x in ref2)
+            tolc = 4 * TOL * (onorm * ((sc + 0.25) * math.sqrt(en2) + (sc + 0.25) ** 2 * TOL)) + 1e-300
+            if not min(abs(c2 - r) for r in refs) <= tolc:
+                msgs.append("after replacing the measurement%s on the same edge object, chi2 is %.17g but the reference gives %r (stale intermediate result?)" % (" and the offset" if case["edge"] == "lm" else "", c2, refs))
         return msgs, ratio, nontriv, nops, classes
     if t == "graph":
         g, edges, specs = _graph_alphabet(case["seed"], case["edges"])
